@@ -61,7 +61,7 @@ def dump_mir(repo, out_dir):
     lib = os.path.join(repo, 'minijinja', 'src', 'lib.rs')
     os.utime(lib, None)      # cargo prints nothing for an up-to-date crate
     env = dict(os.environ, CARGO_NET_OFFLINE='true', CARGO_TARGET_DIR=os.path.join(out_dir, 'target'))
-    p = subprocess.run(['cargo', '+nightly', 'rustc', '--offline', '--lib', '--', '-Zunpretty=mir', '-C', 'debug-assertions=off'],
+    p = subprocess.run(['cargo', '+nightly', 'rustc', '--offline', '--lib', '--features', 'fuel,loop_controls', '--', '-Zunpretty=mir', '-C', 'debug-assertions=off'],
                        cwd=os.path.join(repo, 'minijinja'), env=env, stdout=subprocess.PIPE, stderr=subprocess.PIPE, text=True, timeout=900)
     if p.returncode != 0 or 'fn ' not in p.stdout:
         raise MirError('MIR dump failed: ' + p.stderr[-600:])
@@ -528,13 +528,72 @@ def check_no_write_after_failed_write(fn):
     return 'unsat', dict(kind='a write is reachable after a failed write', calls=[]), dt, stats
 
 
+def check_fuel_charged_once(fn):
+    """Between fetching an instruction and dispatching on it, exactly one FuelTracker::track call lies on EVERY
+    path when a tracker exists (the branch "no tracker" is pruned), and its result is tested."""
+    adj, preds = cfg(fn)
+    fetch = [b for b, blk in fn['blocks'].items() if not blk['cleanup'] and re.search(r"Instructions::<[^>]*>::get\(", blk['term'])]
+    dispatch = [b for b, blk in fn['blocks'].items() if not blk['cleanup'] and blk['term'].startswith('switchInt') and blk['term'].count('bb') >= 40]
+    if len(fetch) != 1 or len(dispatch) != 1:
+        return 'unknown', dict(kind='cannot identify the fetch (%d) / dispatch (%d) blocks of the interpreter loop' % (len(fetch), len(dispatch)), calls=[]), 0.0, {}
+    F, X = fetch[0], dispatch[0]
+    s_ = z3.Solver()
+    s_.set('timeout', 30000)
+    D = {b: z3.Int('T_%s' % b) for b in fn['blocks'] if not fn['blocks'][b]['cleanup']}
+    s_.add(D[F] == 0)
+    seen, todo = {F}, [F]
+    n = ntrack = 0
+    tested = False
+    while todo:
+        b = todo.pop()
+        if b == X:
+            continue
+        blk = fn['blocks'][b]
+        if any(re.match(r'_0 = ', st) for st in blk['stmts']):
+            continue
+        t = blk['term']
+        _, callee = call_of(t)
+        # the branch on "is there a tracker": keep only the Some edge
+        tracker_test = any(re.search(r'discriminant\(\(\(\*_1\)\.\d+: std::option::Option<vm::fuel::FuelTracker>\)\)', st) for st in blk['stmts']) and t.startswith('switchInt')
+        if t.startswith('switchInt') and any(re.match(r'_\d+ = discriminant\(_\d+\)', st) for st in blk['stmts']):
+            ps = preds.get(b, [])
+            if len(ps) == 1 and re.search(r'FuelTracker::track\(', fn['blocks'][ps[0]]['term']):
+                tested = True
+        for label, tgt in adj[b]:
+            if fn['blocks'][tgt]['term'] == 'return;':
+                continue
+            if tracker_test and isinstance(label, tuple) and label[1] == '0':
+                continue
+            eff = 1 if (label == 'ok' and callee and re.search(r'FuelTracker::track\(', callee)) else 0
+            ntrack += eff
+            s_.add(D[tgt] == D[b] + eff)
+            n += 1
+            if tgt not in seen:
+                seen.add(tgt)
+                todo.append(tgt)
+    s_.add(D[X] == 1)
+    t0 = time.time()
+    r = s_.check()
+    dt = time.time() - t0
+    stats = dict(blocks=len(seen), edges=n, track_calls=ntrack, fetch=F, dispatch=X)
+    if X not in seen:
+        return 'unknown', dict(kind='the dispatch block is not reachable from the fetch block', calls=[]), dt, stats
+    if ntrack and not tested:
+        return 'unsat', dict(kind='the result of FuelTracker::track is not tested (running out of fuel would go unnoticed)', calls=[]), dt, stats
+    if r == z3.sat:
+        return 'sat', None, dt, stats
+    if r != z3.unsat:
+        return str(r), None, dt, stats
+    return 'unsat', dict(kind='some path from the instruction fetch to the dispatch does not charge exactly once (%d track call(s) found)' % ntrack, calls=[]), dt, stats
+
+
 def analyse_eval_impl(mir):
     text = function_text(mir, EVAL_IMPL)
     if text is None:
         return [dict(function='eval_impl', verdict='missing', detail='eval_impl not found in the MIR dump')]
     fn = parse_function(text)
     out = []
-    for name, f in (('located', check_located), ('no_write_after_failure', check_no_write_after_failed_write)):
+    for name, f in (('located', check_located), ('no_write_after_failure', check_no_write_after_failed_write), ('fuel_charged_once', check_fuel_charged_once)):
         verdict, info, dt, stats = f(fn)
         r = dict(function='eval_impl', resource=name, spec={}, verdict=verdict, z3_s=round(dt, 3), **stats)
         if info:
@@ -644,7 +703,7 @@ def run_vmexits():
 
 
 def run_eval_impl(prop, tier, seed):
-    which = {'C14': 'located', 'C19': 'no_write_after_failure'}[prop]
+    which = {'C14': 'located', 'C19': 'no_write_after_failure', 'C13': 'fuel_charged_once'}[prop]
     t0 = time.time()
     ev = dict(engine='M', violations=[], known_hits=[], problems=[], coverage={})
     try:
@@ -658,6 +717,26 @@ def run_eval_impl(prop, tier, seed):
         ev['problems'].append('engine M: native scenario tool did not build: ' + err[-300:])
         return ev
     scen = [s for s in run_vmexits() if s['check'] == which]
+    if which == 'fuel_charged_once':
+        # expected consumption of a straight-line template = its instructions minus the zero-cost shapes of fuel.rs
+        err = build_tool('dump')
+        if err:
+            ev['problems'].append('engine M: dump tool did not build')
+            return ev
+        fuel_src = open(os.path.join(REPO, 'minijinja', 'src', 'vm', 'fuel.rs'), encoding='utf-8').read()
+        m0 = re.search(r'fn fuel_for_instruction.*?\{(.*?)_ => 1', fuel_src, re.S)
+        free = set(re.findall(r'Instruction::(\w+)', m0.group(1))) if m0 else set()
+        inp = '\n'.join(json.dumps(dict(id=i, src=s['src'])) for i, s in enumerate(scen)) + '\n'
+        p = subprocess.run([os.path.join(BUILD, 'native', 'debug', 'dump')], input=inp, stdout=subprocess.PIPE, stderr=subprocess.PIPE, text=True, timeout=120)
+        dumps = {d['id']: d for d in (json.loads(l) for l in p.stdout.split('\n') if l.strip())}
+        for i, s in enumerate(scen):
+            ins = dumps.get(i, {}).get('instrs')
+            if ins is None or not m0:
+                ev['problems'].append('engine M: cannot compute the expected fuel of %r' % s['src'])
+                continue
+            want = sum(1 for x in ins if x['op'] not in free)
+            s['ok'] = (s['consumed'] == want)
+            s['detail'] = 'consumed %s units, %d charged instructions in the compiled template' % (s['consumed'], want)
     failing = [s for s in scen if not s['ok']]
     for r in results:
         if r['verdict'] == 'sat':
